@@ -19,6 +19,7 @@ import (
 	"go/constant"
 	"go/token"
 	"go/types"
+	"os"
 	"sort"
 	"strconv"
 	"strings"
@@ -47,30 +48,59 @@ const (
 	symRepeat // inside a list: for every element of X (in order), the values Parts are appended
 	symAcc    // placeholder for an accumulator while the loop body that appends to it is evaluated
 	symChoice // one of Parts, Alts[i] is the condition under which Parts[i] is the value
+	symWhen   // inside a list: the values Parts are appended when the condition X holds (Name: its text)
 	symFuncLit
 )
 
 type Sym struct {
-	K      symKind
-	C      constant.Value
-	Obj    types.Object
-	X, Y   *Sym
-	Name   string
-	Parts  []*Sym
-	Fields map[string]*Sym
-	Order  []string // field / key order of a struct or map literal
-	Fn     string
-	Op     token.Token
-	Expr   ast.Expr
-	Type   types.Type
-	Alts   []string              // symChoice: the condition of each alternative
-	Env    map[types.Object]*Sym // symFuncLit: the environment the literal was created in
-	Lit    *ast.FuncLit
-	RecvT  types.Type // symField: the static type of the expression the field was selected from
-	Origin ast.Node   // symChoice from a multi-return helper: the call; alternatives of all results of that call are aligned
+	K        symKind
+	C        constant.Value
+	Obj      types.Object
+	X, Y     *Sym
+	Name     string
+	Parts    []*Sym
+	Fields   map[string]*Sym
+	Order    []string // field / key order of a struct or map literal
+	Fn       string
+	Op       token.Token
+	Expr     ast.Expr
+	Type     types.Type
+	Alts     []string              // symChoice: the condition of each alternative
+	Env      map[types.Object]*Sym // symFuncLit: the environment the literal was created in
+	Lit      *ast.FuncLit
+	RecvT    types.Type // symField: the static type of the expression the field was selected from
+	Origin   ast.Node   // symChoice from a multi-return helper: the call; alternatives of all results of that call are aligned
+	AltConds []*Sym     // symChoice from an if/else merge: the condition of each alternative as a value
 }
 
 func symUnknownOf(e ast.Expr) *Sym { return &Sym{K: symUnknown, Expr: e} }
+
+// dynamicPart: a list part that stands for a number of elements not known statically.
+func dynamicPart(p *Sym) bool { return p.K == symRepeat || p.K == symWhen || p.K == symAcc }
+
+// listStatic: every part of the list is one element.
+func listStatic(s *Sym) bool {
+	if s == nil || s.K != symList {
+		return false
+	}
+	for _, p := range s.Parts {
+		if dynamicPart(p) {
+			return false
+		}
+	}
+	return true
+}
+
+// lenLowerBound: the number of elements the list certainly has.
+func lenLowerBound(s *Sym) int {
+	n := 0
+	for _, p := range s.Parts {
+		if !dynamicPart(p) {
+			n++
+		}
+	}
+	return n
+}
 
 func symStr(s string) *Sym { return &Sym{K: symConst, C: constant.MakeString(s)} }
 
@@ -167,7 +197,16 @@ func (s *Sym) String() string {
 		}
 		return "each(" + s.X.String() + " => " + strings.Join(ps, ",") + ")"
 	case symAcc:
+		if s.Obj != nil {
+			return "acc:" + s.Obj.Name()
+		}
 		return "acc"
+	case symWhen:
+		var ps []string
+		for _, p := range s.Parts {
+			ps = append(ps, p.String())
+		}
+		return "when(" + s.Name + " => " + strings.Join(ps, ",") + ")"
 	case symChoice:
 		var ps []string
 		for i, p := range s.Parts {
@@ -229,6 +268,9 @@ func (s *Sym) Walk(f func(*Sym)) {
 type symCond struct {
 	Cond *Sym
 	Neg  bool
+	// Residual: the condition holds for the rest of the enclosing block because the other branch left it (continue,
+	// break, return), as opposed to the condition of the branch being walked
+	Residual bool
 }
 
 func (c symCond) String() string {
@@ -319,10 +361,22 @@ type symWalker struct {
 	// AssumeFn may replace a field / variable value by a constant (a case split by the rule)
 	AssumeFn func(s *Sym) *Sym
 	// OnSend is called for every channel send statement
-	OnSend      func(w *symWalker, st *ast.SendStmt, ch *Sym, val *Sym)
-	feas        map[ast.Node][]bool // per multi-return call: which of its return alternatives are still possible on this path
-	broke       bool                // an unconditional break was executed in the loop body being unrolled
-	globalsSeen map[types.Object]*Sym
+	OnSend        func(w *symWalker, st *ast.SendStmt, ch *Sym, val *Sym)
+	feas          map[ast.Node][]bool   // per multi-return call: which of its return alternatives are still possible on this path
+	broke         bool                  // an unconditional break was executed in the loop body being unrolled
+	loopFrames    []*loopFrame          // the enclosing loops of this function whose bodies are being walked
+	inheritedLeft []string              // the same for the loops of the callers this function is interpreted in
+	derefStored   map[types.Object]bool // pointer parameters / receivers through which this function stored (`*p = v`)
+	globalsSeen   map[types.Object]*Sym
+}
+
+// loopFrame records, for a loop body being walked, under which conditions an earlier statement left the iteration
+// (continue) or the loop (break, return): what is appended to a list afterwards is appended for the other elements only.
+type loopFrame struct {
+	base        int      // len(conds) at loop entry
+	left        []string // continue: this iteration only
+	leftForGood []string // break / return / labelled jumps: this and all later iterations
+	switchDepth int      // switch / select statements open inside the body (break leaves those)
 }
 
 type symReturn struct {
@@ -382,6 +436,38 @@ func fold(s *Sym) *Sym {
 					return symBool(li == ri)
 				case token.NEQ:
 					return symBool(li != ri)
+				}
+			}
+		}
+		// len(list) compared with a constant: the list certainly has its static parts
+		if s.X.K == symLen && s.X.X != nil && s.X.X.K == symList {
+			if c, ok := s.Y.ConstInt(); ok {
+				m := int64(lenLowerBound(s.X.X))
+				switch s.Op {
+				case token.GTR:
+					if m > c {
+						return symBool(true)
+					}
+				case token.GEQ:
+					if m >= c {
+						return symBool(true)
+					}
+				case token.NEQ:
+					if m > c {
+						return symBool(true)
+					}
+				case token.EQL:
+					if m > c {
+						return symBool(false)
+					}
+				case token.LSS:
+					if m >= c {
+						return symBool(false)
+					}
+				case token.LEQ:
+					if m > c {
+						return symBool(false)
+					}
 				}
 			}
 		}
@@ -466,6 +552,7 @@ func (p *Prog) SymWalk(pk *packages.Package, fd *ast.FuncDecl, proto *symWalker,
 	if proto != nil {
 		w.Inline, w.OnCall, w.OnStore, w.OnReturn, w.OnText, w.Assume = proto.Inline, proto.OnCall, proto.OnStore, proto.OnReturn, proto.OnText, proto.Assume
 		w.AssumeFn, w.OnSend = proto.AssumeFn, proto.OnSend
+		w.inheritedLeft = proto.inheritedLeft
 		w.feas = copyFeas(proto.feas)
 		w.conds, w.loops, w.depth = append([]symCond{}, proto.conds...), append([]*Sym{}, proto.loops...), proto.depth
 		for k := range proto.stack {
@@ -831,15 +918,12 @@ func (w *symWalker) eval1(e ast.Expr) *Sym {
 	case *ast.IndexExpr:
 		base, idx := w.eval(x.X), w.eval(x.Index)
 		if base.K == symList {
-			static := true
-			for _, part := range base.Parts {
-				if part.K == symRepeat {
-					static = false
-				}
-			}
-			if i, ok := idx.ConstInt(); ok && static && i >= 0 && int(i) < len(base.Parts) {
+			if i, ok := idx.ConstInt(); ok && listStatic(base) && i >= 0 && int(i) < len(base.Parts) {
 				return base.Parts[i]
 			}
+		}
+		if idx.K == symIdx && idx.X != nil && idx.X.String() == base.String() {
+			return &Sym{K: symElem, X: base, Expr: e} // X[i] under `for i := range X` / the counted form of that loop
 		}
 		if base.K == symStruct {
 			if k, ok := idx.ConstString(); ok {
@@ -850,7 +934,26 @@ func (w *symWalker) eval1(e ast.Expr) *Sym {
 		}
 		return &Sym{K: symIndex, X: base, Y: idx, Expr: e}
 	case *ast.SliceExpr:
-		return &Sym{K: symCall, Fn: "slice", Parts: []*Sym{w.eval(x.X)}, Expr: e}
+		// X[low:high] with the defaults made explicit: X[1:] and X[1:len(X)] are the same value
+		base := w.eval(x.X)
+		low := &Sym{K: symConst, C: constant.MakeInt64(0)}
+		if x.Low != nil {
+			low = w.eval(x.Low)
+		}
+		var high *Sym
+		if x.High != nil {
+			high = w.eval(x.High)
+		} else if listStatic(base) {
+			high = &Sym{K: symConst, C: constant.MakeInt64(int64(len(base.Parts)))}
+		} else {
+			high = &Sym{K: symLen, X: base}
+		}
+		if li, ok1 := low.ConstInt(); ok1 && listStatic(base) && x.Max == nil {
+			if hi, ok2 := high.ConstInt(); ok2 && li >= 0 && hi >= li && int(hi) <= len(base.Parts) {
+				return &Sym{K: symList, Parts: base.Parts[li:hi], Type: base.Type, Expr: e}
+			}
+		}
+		return &Sym{K: symCall, Fn: "slice", Parts: []*Sym{base, low, high}, Expr: e}
 	case *ast.CompositeLit:
 		return w.composite(x)
 	case *ast.FuncLit:
@@ -933,13 +1036,7 @@ func (w *symWalker) call(x *ast.CallExpr) *Sym {
 	switch name {
 	case "len":
 		if len(args) == 1 {
-			static := args[0].K == symList
-			for _, part := range args[0].Parts {
-				if part.K == symRepeat {
-					static = false // one entry per element of another collection: the length is not known
-				}
-			}
-			if static {
+			if listStatic(args[0]) { // (a list with one entry per element of another collection has no known length)
 				result = &Sym{K: symConst, C: constant.MakeInt64(int64(len(args[0].Parts)))}
 			} else if s, ok := args[0].ConstString(); ok {
 				result = &Sym{K: symConst, C: constant.MakeInt64(int64(len(s)))}
@@ -949,12 +1046,18 @@ func (w *symWalker) call(x *ast.CallExpr) *Sym {
 		}
 	case "append":
 		if len(args) >= 1 && (args[0].K == symList || args[0].K == symNil) && !x.Ellipsis.IsValid() {
-			out := &Sym{K: symList, Expr: x}
-			out.Parts = append(append(out.Parts, args[0].Parts...), args[1:]...)
+			out := &Sym{K: symList, Expr: x, Type: args[0].Type}
+			out.Parts = append(append(out.Parts, args[0].Parts...), w.underResidual(args[1:])...)
 			result = out
 		} else if len(args) == 2 && x.Ellipsis.IsValid() && (args[0].K == symList || args[0].K == symNil) && args[1].K == symList {
-			out := &Sym{K: symList, Expr: x}
-			out.Parts = append(append(out.Parts, args[0].Parts...), args[1].Parts...)
+			out := &Sym{K: symList, Expr: x, Type: args[0].Type}
+			out.Parts = append(append(out.Parts, args[0].Parts...), w.underResidual(args[1].Parts)...)
+			result = out
+		} else if len(args) == 2 && x.Ellipsis.IsValid() && (args[0].K == symList || args[0].K == symNil) && args[1].K != symNil {
+			// append(acc, v...) is `for _, e := range v { acc = append(acc, e) }`
+			out := &Sym{K: symList, Expr: x, Type: args[0].Type}
+			each := &Sym{K: symRepeat, X: args[1], Parts: []*Sym{{K: symElem, X: args[1]}}}
+			out.Parts = append(append(out.Parts, args[0].Parts...), w.underResidual([]*Sym{each})...)
 			result = out
 		} else {
 			result = &Sym{K: symCall, Fn: "append", Parts: args, Expr: x}
@@ -1052,16 +1155,79 @@ func (w *symWalker) call(x *ast.CallExpr) *Sym {
 					}
 				}
 			}
+			// pointer parameters bound to (the address of) a variable of this function: stores through them are seen here
+			writeBack := map[types.Object]types.Object{}
+			addrTarget := func(e ast.Expr, implicit bool) types.Object {
+				e = ast.Unparen(e)
+				if u, ok := e.(*ast.UnaryExpr); ok && u.Op == token.AND {
+					e = ast.Unparen(u.X)
+				} else if !implicit {
+					if id, ok := e.(*ast.Ident); ok {
+						if o := w.info.Uses[id]; o != nil {
+							if _, isPtr := o.Type().Underlying().(*types.Pointer); isPtr {
+								return o
+							}
+						}
+					}
+					return nil
+				}
+				if id, ok := e.(*ast.Ident); ok {
+					if o, isVar := w.info.Uses[id].(*types.Var); isVar {
+						return o
+					}
+				}
+				return nil
+			}
+			i = 0
+			if ftype.Params != nil {
+				for _, f := range ftype.Params.List {
+					for _, nm := range f.Names {
+						if po := fpk.TypesInfo.Defs[nm]; po != nil && i < len(x.Args) {
+							if _, isPtr := po.Type().Underlying().(*types.Pointer); isPtr {
+								if t := addrTarget(x.Args[i], false); t != nil {
+									writeBack[po] = t
+								}
+							}
+						}
+						i++
+					}
+				}
+			}
 			if fdecl != nil && fdecl.Recv != nil && len(fdecl.Recv.List) == 1 && len(fdecl.Recv.List[0].Names) == 1 {
 				if sel, ok := ast.Unparen(x.Fun).(*ast.SelectorExpr); ok {
-					bind[fpk.TypesInfo.Defs[fdecl.Recv.List[0].Names[0]]] = w.eval(sel.X)
+					ro := fpk.TypesInfo.Defs[fdecl.Recv.List[0].Names[0]]
+					bind[ro] = w.eval(sel.X)
+					if ro != nil {
+						if _, isPtr := ro.Type().Underlying().(*types.Pointer); isPtr {
+							if t := addrTarget(sel.X, true); t != nil {
+								writeBack[ro] = t
+							}
+						}
+					}
 				}
 			}
 			if fdecl == nil {
 				fdecl = &ast.FuncDecl{Name: ast.NewIdent("func-literal"), Type: ftype, Body: fbody}
 			}
 			proto := &symWalker{Inline: w.Inline, OnCall: w.OnCall, OnStore: w.OnStore, OnText: w.OnText, OnReturn: nil, Assume: w.Assume, AssumeFn: w.AssumeFn, OnSend: w.OnSend, conds: w.conds, loops: w.loops, depth: w.depth + 1, stack: w.stack}
+			proto.inheritedLeft = w.leftSoFar()
 			sub := w.p.SymWalk(fpk, fdecl, proto, bind)
+			for po, target := range writeBack {
+				if !sub.derefStored[po] {
+					continue
+				}
+				if v := sub.env[po]; v != nil && sub.nret <= 1 {
+					w.env[target] = v
+				} else {
+					w.env[target] = &Sym{K: symUnknown, Name: "stored through a pointer by " + name}
+				}
+				if _, isPtr := target.Type().Underlying().(*types.Pointer); isPtr {
+					if w.derefStored == nil {
+						w.derefStored = map[types.Object]bool{}
+					}
+					w.derefStored[target] = true // handed on: our own caller sees it as well
+				}
+			}
 			switch {
 			case len(sub.rets) == 1 && len(sub.rets[0].vals) == 1:
 				result = sub.rets[0].vals[0]
@@ -1115,6 +1281,37 @@ func (w *symWalker) call(x *ast.CallExpr) *Sym {
 				result.X = w.eval(sel.X) // the receiver of a method call
 			}
 		}
+		// a call that is not interpreted may store through the address of a local value it is handed
+		var touched []types.Object
+		if fn, ok := obj.(*types.Func); ok {
+			if sig, ok := fn.Type().(*types.Signature); ok && sig.Recv() != nil {
+				if _, isPtr := sig.Recv().Type().Underlying().(*types.Pointer); isPtr {
+					if sel, ok := ast.Unparen(x.Fun).(*ast.SelectorExpr); ok {
+						if id, ok := ast.Unparen(sel.X).(*ast.Ident); ok {
+							if o, isVar := w.info.Uses[id].(*types.Var); isVar {
+								if _, ptrVar := o.Type().Underlying().(*types.Pointer); !ptrVar {
+									touched = append(touched, o)
+								}
+							}
+						}
+					}
+				}
+			}
+		}
+		for _, a := range x.Args {
+			if u, ok := ast.Unparen(a).(*ast.UnaryExpr); ok && u.Op == token.AND {
+				if id, ok := ast.Unparen(u.X).(*ast.Ident); ok {
+					if o, isVar := w.info.Uses[id].(*types.Var); isVar {
+						touched = append(touched, o)
+					}
+				}
+			}
+		}
+		for _, o := range touched {
+			if cur, ok := w.env[o]; ok && cur != nil && (cur.K == symList || cur.K == symStruct) {
+				w.env[o] = &Sym{K: symUnknown, Name: "possibly modified through a pointer by " + name}
+			}
+		}
 	}
 	if w.OnCall != nil {
 		w.OnCall(w, x, obj, args, result)
@@ -1152,12 +1349,120 @@ func (w *symWalker) assignedIn(n ast.Node) map[types.Object]bool {
 					out[o] = true
 				}
 			}
+		case *ast.CallExpr:
+			for _, o := range w.mayStoreThrough(x) {
+				out[o] = true
+			}
 		case *ast.FuncLit:
 			return true
 		}
 		return true
 	})
 	return out
+}
+
+// mayStoreThrough: the local variables a call can modify through a pointer: the receiver of a pointer-receiver method
+// of the module called on a variable, and variables whose address is an argument of a module function — when that
+// function (or one it hands the pointer on to) stores through the pointer (`*p = v`).
+func (w *symWalker) mayStoreThrough(x *ast.CallExpr) []types.Object {
+	var out []types.Object
+	for o, prm := range w.pointerArgs(x) {
+		fn, _ := calleeOf(w.info, x).(*types.Func)
+		if w.p.storesThrough(fn, prm, 0) {
+			out = append(out, o)
+		}
+	}
+	return out
+}
+
+// pointerArgs: caller variable -> index of the callee parameter (-1: the receiver) that receives its address.
+func (w *symWalker) pointerArgs(x *ast.CallExpr) map[types.Object]int {
+	out := map[types.Object]int{}
+	fn, _ := calleeOf(w.info, x).(*types.Func)
+	if fn == nil || fn.Pkg() == nil || !strings.HasPrefix(fn.Pkg().Path(), ModulePath) {
+		return out
+	}
+	sig, _ := fn.Type().(*types.Signature)
+	if sig == nil {
+		return out
+	}
+	if sel, ok := ast.Unparen(x.Fun).(*ast.SelectorExpr); ok && sig.Recv() != nil {
+		if _, isPtr := sig.Recv().Type().Underlying().(*types.Pointer); isPtr {
+			if id, ok := ast.Unparen(sel.X).(*ast.Ident); ok {
+				if o, isVar := w.info.Uses[id].(*types.Var); isVar {
+					out[o] = -1
+				}
+			}
+		}
+	}
+	for i, a := range x.Args {
+		a = ast.Unparen(a)
+		if u, ok := a.(*ast.UnaryExpr); ok && u.Op == token.AND {
+			if id, ok := ast.Unparen(u.X).(*ast.Ident); ok {
+				if o, isVar := w.info.Uses[id].(*types.Var); isVar {
+					out[o] = i
+				}
+			}
+		} else if id, ok := a.(*ast.Ident); ok {
+			// a pointer variable handed on
+			if o, isVar := w.info.Uses[id].(*types.Var); isVar {
+				if _, isPtr := o.Type().Underlying().(*types.Pointer); isPtr {
+					out[o] = i
+				}
+			}
+		}
+	}
+	return out
+}
+
+// storesThrough: the module function assigns through its pointer parameter prm (-1: receiver), itself or in a callee.
+func (p *Prog) storesThrough(fn *types.Func, prm int, depth int) bool {
+	if fn == nil {
+		return true
+	}
+	fd, pk := p.findDecl(fn)
+	if fd == nil || fd.Body == nil {
+		return true // no syntax: assume it does
+	}
+	if depth > 4 {
+		return true
+	}
+	var po types.Object
+	if prm < 0 {
+		if fd.Recv != nil && len(fd.Recv.List) == 1 && len(fd.Recv.List[0].Names) == 1 {
+			po = pk.TypesInfo.Defs[fd.Recv.List[0].Names[0]]
+		}
+	} else if fd.Type.Params != nil {
+		i := 0
+		for _, f := range fd.Type.Params.List {
+			for _, nm := range f.Names {
+				if i == prm {
+					po = pk.TypesInfo.Defs[nm]
+				}
+				i++
+			}
+		}
+	}
+	if po == nil {
+		return false // an unnamed parameter cannot be stored through
+	}
+	sub := &symWalker{p: p, pk: pk, info: pk.TypesInfo, fd: fd}
+	if sub.assignedThroughPointer(fd.Body)[po] {
+		return true
+	}
+	found := false
+	ast.Inspect(fd.Body, func(m ast.Node) bool {
+		if call, ok := m.(*ast.CallExpr); ok && !found {
+			if idx, ok := sub.pointerArgs(call)[po]; ok {
+				callee, _ := calleeOf(sub.info, call).(*types.Func)
+				if callee != fn && p.storesThrough(callee, idx, depth+1) {
+					found = true
+				}
+			}
+		}
+		return !found
+	})
+	return found
 }
 
 func (w *symWalker) forget(objs map[types.Object]bool, at ast.Node) {
@@ -1229,6 +1534,17 @@ func (w *symWalker) assign(lhs ast.Expr, val *Sym, at ast.Node, define bool) {
 	case *ast.StarExpr:
 		if w.OnStore != nil {
 			w.OnStore(w, at, w.eval(l.X), nil, val)
+		}
+		// pointers are conflated with what they point to: `*p = v` makes v what p stands for from here on; when p is a
+		// parameter bound to the address of a caller's variable the caller sees the new value after the call
+		if id, ok := ast.Unparen(l.X).(*ast.Ident); ok {
+			if o := w.info.Uses[id]; o != nil {
+				w.env[o] = val
+				if w.derefStored == nil {
+					w.derefStored = map[types.Object]bool{}
+				}
+				w.derefStored[o] = true
+			}
 		}
 	}
 }
@@ -1346,6 +1662,7 @@ func (w *symWalker) stmt(st ast.Stmt) (terminates bool) {
 				}
 			}
 		}
+		w.leaveLoop(token.RETURN, false)
 		w.returned = res
 		w.nret++
 		w.rets = append(w.rets, symReturn{condsText(w.conds[min(w.baseCond, len(w.conds)):]), res})
@@ -1354,6 +1671,9 @@ func (w *symWalker) stmt(st ast.Stmt) (terminates bool) {
 		}
 		return true
 	case *ast.BranchStmt:
+		if x.Tok != token.FALLTHROUGH {
+			w.leaveLoop(x.Tok, x.Label != nil)
+		}
 		if x.Tok == token.BREAK {
 			allConst := true
 			for _, cnd := range w.conds {
@@ -1388,8 +1708,12 @@ func (w *symWalker) stmt(st ast.Stmt) (terminates bool) {
 		}
 		assigned := w.assignedIn(x)
 		snap := w.snapshot()
+		before := map[types.Object]*Sym{}
+		for o := range assigned {
+			before[o] = w.env[o]
+		}
 		feas0 := copyFeas(w.feas)
-		w.conds = append(w.conds, symCond{cond, false})
+		w.conds = append(w.conds, symCond{Cond: cond, Neg: false})
 		w.assumeNilTest(cond, true)
 		t1 := w.block(x.Body.List)
 		w.conds = w.conds[:len(w.conds)-1]
@@ -1400,7 +1724,7 @@ func (w *symWalker) stmt(st ast.Stmt) (terminates bool) {
 		w.assumeNilTest(cond, false)
 		t2 := false
 		if x.Else != nil {
-			w.conds = append(w.conds, symCond{cond, true})
+			w.conds = append(w.conds, symCond{Cond: cond, Neg: true})
 			t2 = w.stmt(x.Else)
 			w.conds = w.conds[:len(w.conds)-1]
 		}
@@ -1412,11 +1736,11 @@ func (w *symWalker) stmt(st ast.Stmt) (terminates bool) {
 		case t1:
 			w.env = env2
 			w.feas = feas2
-			w.conds = append(w.conds, symCond{cond, true}) // popped at the end of the enclosing block
+			w.conds = append(w.conds, symCond{Cond: cond, Neg: true, Residual: true}) // popped at the end of the enclosing block
 		case t2:
 			w.env = env1
 			w.feas = feas1
-			w.conds = append(w.conds, symCond{cond, false})
+			w.conds = append(w.conds, symCond{Cond: cond, Neg: false, Residual: true})
 		default:
 			// both branches continue: an alternative is possible when it is possible in either
 			merged := copyFeas(feas0)
@@ -1444,7 +1768,15 @@ func (w *symWalker) stmt(st ast.Stmt) (terminates bool) {
 					continue
 				}
 				if a != nil && b != nil {
-					w.env[o] = mkChoice([]string{cond.String(), "!" + cond.String()}, []*Sym{a, b})
+					if m := mergeLists(before[o], a, b, cond); m != nil {
+						w.env[o] = m
+						continue
+					}
+					ch := mkChoice([]string{cond.String(), "!" + cond.String()}, []*Sym{a, b})
+					if ch.K == symChoice && len(ch.Parts) == 2 {
+						ch.AltConds = []*Sym{cond, {K: symNot, X: cond}}
+					}
+					w.env[o] = ch
 					continue
 				}
 				w.env[o] = &Sym{K: symUnknown, Name: "merged:" + o.Name()}
@@ -1457,176 +1789,16 @@ func (w *symWalker) stmt(st ast.Stmt) (terminates bool) {
 		}
 	case *ast.RangeStmt:
 		X := w.eval(x.X)
-		staticList := X.K == symList && len(X.Parts) <= 64
-		for _, part := range X.Parts {
-			if part.K == symRepeat {
-				staticList = false // one entry per element of another collection: not a table
-			}
-		}
-		if staticList {
-			for i, el := range X.Parts {
-				if x.Key != nil {
-					w.assign(x.Key, &Sym{K: symConst, C: constant.MakeInt64(int64(i))}, x, true)
-				}
-				if x.Value != nil {
-					w.assign(x.Value, el, x, true)
-				}
-				w.broke = false
-				w.block(x.Body.List)
-				if w.broke {
-					w.broke = false
-					break
-				}
-			}
-			return false
-		}
-		savedBrokeR := w.broke
-		defer func() { w.broke = savedBrokeR }()
 		isChan := false
 		if tv, ok := w.info.Types[x.X]; ok {
 			_, isChan = tv.Type.Underlying().(*types.Chan)
 		}
-		assigned := w.assignedIn(x.Body)
-		// accumulators: `acc = append(acc, e...)` as a direct, unconditional statement of the body and the only assignment
-		accs := map[types.Object]*Sym{}
-		counts := map[types.Object]int{}
-		ast.Inspect(x.Body, func(m ast.Node) bool {
-			if as, ok := m.(*ast.AssignStmt); ok {
-				for _, l := range as.Lhs {
-					if id, ok := l.(*ast.Ident); ok {
-						if o := w.info.Uses[id]; o != nil {
-							counts[o]++
-						}
-					}
-				}
-			}
-			return true
-		})
-		skipped := false // an earlier statement of the body can skip the rest of the iteration
-		for _, st := range x.Body.List {
-			if skipped {
-				break
-			}
-			ast.Inspect(st, func(m ast.Node) bool {
-				switch m.(type) {
-				case *ast.BranchStmt, *ast.ReturnStmt:
-					skipped = true
-				case *ast.FuncLit:
-					return false
-				}
-				return true
-			})
-			as, ok := st.(*ast.AssignStmt)
-			if !ok || len(as.Lhs) != 1 || len(as.Rhs) != 1 || as.Tok != token.ASSIGN {
-				continue
-			}
-			id, ok := as.Lhs[0].(*ast.Ident)
-			if !ok {
-				continue
-			}
-			o := w.info.Uses[id]
-			call, ok := as.Rhs[0].(*ast.CallExpr)
-			if o == nil || !ok || len(call.Args) < 2 || call.Ellipsis.IsValid() || counts[o] != 1 {
-				continue
-			}
-			if fid, ok := call.Fun.(*ast.Ident); !ok || fid.Name != "append" {
-				continue
-			}
-			if a0, ok := ast.Unparen(call.Args[0]).(*ast.Ident); !ok || w.info.Uses[a0] != o {
-				continue
-			}
-			if prev, ok := w.env[o]; ok && prev.K == symList {
-				accs[o] = prev
-			}
-		}
-		// fills: `dst[key] = e` as a direct statement, dst := make([]T, len(X)), key the range key
-		type fill struct {
-			o    types.Object
-			stmt *ast.AssignStmt
-		}
-		var fills []fill
-		if keyID, ok := x.Key.(*ast.Ident); ok && keyID.Name != "_" {
-			keyObj := w.info.Defs[keyID]
-			skippedF := false
-			for _, st := range x.Body.List {
-				if skippedF {
-					break
-				}
-				ast.Inspect(st, func(m ast.Node) bool {
-					switch m.(type) {
-					case *ast.BranchStmt, *ast.ReturnStmt:
-						skippedF = true
-					case *ast.FuncLit:
-						return false
-					}
-					return true
-				})
-				as, ok := st.(*ast.AssignStmt)
-				if !ok || len(as.Lhs) != 1 || len(as.Rhs) != 1 || as.Tok != token.ASSIGN {
-					continue
-				}
-				ix, ok := as.Lhs[0].(*ast.IndexExpr)
-				if !ok {
-					continue
-				}
-				dst, ok1 := ast.Unparen(ix.X).(*ast.Ident)
-				kid, ok2 := ast.Unparen(ix.Index).(*ast.Ident)
-				if !ok1 || !ok2 || w.info.Uses[kid] != keyObj || keyObj == nil {
-					continue
-				}
-				o := w.info.Uses[dst]
-				prev := w.env[o]
-				if o == nil || prev == nil || prev.K != symCall || prev.Fn != "make" || len(prev.Parts) != 2 {
-					continue
-				}
-				if prev.Parts[1].K != symLen || prev.Parts[1].X.String() != X.String() {
-					continue
-				}
-				fills = append(fills, fill{o, as})
-			}
-		}
-		w.forget(assigned, x) // loop-carried values are unknown inside the body as well
-		for o := range accs {
-			w.env[o] = &Sym{K: symAcc, Obj: o}
-		}
-		if x.Key != nil {
-			if isChan {
-				w.assign(x.Key, &Sym{K: symElem, X: X}, x, true)
-			} else {
-				w.assign(x.Key, &Sym{K: symIdx, X: X}, x, true)
-			}
-		}
-		if x.Value != nil {
-			w.assign(x.Value, &Sym{K: symElem, X: X}, x, true)
-		}
-		w.loops = append(w.loops, X)
-		w.block(x.Body.List)
-		w.loops = w.loops[:len(w.loops)-1]
-		after := map[types.Object]*Sym{}
-		for o, prev := range accs {
-			if v := w.env[o]; v != nil && v.K == symCall && v.Fn == "append" && len(v.Parts) >= 2 && v.Parts[0].K == symAcc {
-				out := &Sym{K: symList, Type: prev.Type}
-				out.Parts = append(append(out.Parts, prev.Parts...), &Sym{K: symRepeat, X: X, Parts: v.Parts[1:]})
-				after[o] = out
-			}
-		}
-		w.forget(assigned, x)
-		for o, v := range after {
-			w.env[o] = v
-		}
-		for _, f := range fills {
-			// evaluate the stored value once more in the loop's binding (no events: callbacks muted)
-			sub := &symWalker{p: w.p, pk: w.pk, info: w.info, fd: w.fd, env: copyEnv(w.env), stack: w.stack, depth: w.depth, Inline: nil}
-			if x.Key != nil {
-				sub.assign(x.Key, &Sym{K: symIdx, X: X}, x, true)
-			}
-			if x.Value != nil {
-				sub.assign(x.Value, &Sym{K: symElem, X: X}, x, true)
-			}
-			v := sub.eval(f.stmt.Rhs[0])
-			w.env[f.o] = &Sym{K: symList, Parts: []*Sym{{K: symRepeat, X: X, Parts: []*Sym{v}}}}
-		}
+		w.loopOver(x, X, x.Key, x.Value, x.Body, isChan, x.Tok == token.DEFINE)
 	case *ast.ForStmt:
+		if key, X, ok := w.countedLoop(x); ok {
+			w.loopOver(x, X, key, nil, x.Body, false, true)
+			return false
+		}
 		savedBrokeF := w.broke
 		defer func() { w.broke = savedBrokeF }()
 		if x.Init != nil {
@@ -1639,12 +1811,19 @@ func (w *symWalker) stmt(st ast.Stmt) (terminates bool) {
 			bound = w.eval(x.Cond)
 		}
 		w.loops = append(w.loops, &Sym{K: symCall, Fn: "for", Parts: []*Sym{bound}})
+		w.loopFrames = append(w.loopFrames, &loopFrame{base: len(w.conds)})
 		w.block(x.Body.List)
+		w.loopFrames = w.loopFrames[:len(w.loopFrames)-1]
 		w.loops = w.loops[:len(w.loops)-1]
 		w.forget(assigned, x)
 	case *ast.SwitchStmt:
 		savedBroke := w.broke
 		defer func() { w.broke = savedBroke }()
+		if n := len(w.loopFrames); n > 0 {
+			fr := w.loopFrames[n-1]
+			fr.switchDepth++
+			defer func() { fr.switchDepth-- }()
+		}
 		if x.Init != nil {
 			w.stmt(x.Init)
 		}
@@ -1728,8 +1907,8 @@ func (w *symWalker) stmt(st ast.Stmt) (terminates bool) {
 				hasDefault = true
 				w.conds = append(w.conds, prior...)
 			} else {
-				w.conds = append(w.conds, symCond{cond, false})
-				prior = append(prior, symCond{cond, true})
+				w.conds = append(w.conds, symCond{Cond: cond, Neg: false})
+				prior = append(prior, symCond{Cond: cond, Neg: true})
 			}
 			if !w.block(cc.Body) {
 				allTerm = false
@@ -1746,6 +1925,11 @@ func (w *symWalker) stmt(st ast.Stmt) (terminates bool) {
 	case *ast.TypeSwitchStmt:
 		savedBrokeT := w.broke
 		defer func() { w.broke = savedBrokeT }()
+		if n := len(w.loopFrames); n > 0 {
+			fr := w.loopFrames[n-1]
+			fr.switchDepth++
+			defer func() { fr.switchDepth-- }()
+		}
 		if x.Init != nil {
 			w.stmt(x.Init)
 		}
@@ -1778,7 +1962,7 @@ func (w *symWalker) stmt(st ast.Stmt) (terminates bool) {
 				names = append(names, types.ExprString(ce))
 			}
 			base := len(w.conds)
-			w.conds = append(w.conds, symCond{&Sym{K: symCall, Fn: "typeis", Parts: []*Sym{subject}, Name: strings.Join(names, "|")}, false})
+			w.conds = append(w.conds, symCond{&Sym{K: symCall, Fn: "typeis", Parts: []*Sym{subject}, Name: strings.Join(names, "|")}, false, false})
 			w.block(cc.Body)
 			w.conds = w.conds[:base]
 		}
@@ -1988,4 +2172,558 @@ func (w *symWalker) globalTable(v *types.Var) *Sym {
 	val := sub.eval(init)
 	w.globalsSeen[v] = val
 	return val
+}
+
+// underResidual wraps values appended to a list inside a loop body in when(c => ...) when an earlier statement of the
+// body may have left the iteration or the loop (if c { continue }): the append then happens for the other elements only.
+func (w *symWalker) underResidual(parts []*Sym) []*Sym {
+	if len(parts) == 0 {
+		return parts
+	}
+	cs := w.leftSoFar()
+	if len(cs) == 0 {
+		return parts
+	}
+	return []*Sym{{K: symWhen, Name: "not left earlier (" + strings.Join(cs, " | ") + ")", Parts: parts}}
+}
+
+// leftSoFar: the conditions under which the current iteration of an enclosing loop (of this function or of the callers
+// it is interpreted in) has been left before this point.
+func (w *symWalker) leftSoFar() []string {
+	cs := append([]string{}, w.inheritedLeft...)
+	for _, f := range w.loopFrames {
+		cs = append(cs, f.leftForGood...)
+	}
+	if n := len(w.loopFrames); n > 0 {
+		cs = append(cs, w.loopFrames[n-1].left...)
+	}
+	return cs
+}
+
+// leaveLoop records a continue / break / return / goto met while loop bodies are walked.
+func (w *symWalker) leaveLoop(tok token.Token, labelled bool) {
+	if len(w.loopFrames) == 0 {
+		return
+	}
+	inner := w.loopFrames[len(w.loopFrames)-1]
+	where := func(f *loopFrame) string {
+		b := f.base
+		if b > len(w.conds) {
+			b = len(w.conds)
+		}
+		t := condsText(w.conds[b:])
+		if t == "" {
+			t = "always"
+		}
+		return t
+	}
+	switch {
+	case tok == token.CONTINUE && !labelled:
+		inner.left = append(inner.left, where(inner))
+	case tok == token.BREAK && !labelled:
+		if inner.switchDepth > 0 {
+			return // leaves the switch, not the loop
+		}
+		inner.leftForGood = append(inner.leftForGood, where(inner))
+	default:
+		for _, f := range w.loopFrames {
+			f.leftForGood = append(f.leftForGood, where(f))
+		}
+	}
+}
+
+// selfAppends: the objects that n only ever extends: every assignment has the form `o = append(o, ...)` (or
+// `*o = append(*o, ...)` for a pointer), and every call that could store through their address is a call of a module
+// function that itself only extends what the pointer points to.
+func (w *symWalker) selfAppends(n ast.Node) map[types.Object]bool {
+	return w.selfAppendsDepth(n, 0)
+}
+
+func (w *symWalker) selfAppendsDepth(n ast.Node, depth int) map[types.Object]bool {
+	good, bad := map[types.Object]bool{}, map[types.Object]bool{}
+	target := func(e ast.Expr) (types.Object, bool) {
+		e = ast.Unparen(e)
+		deref := false
+		if st, ok := e.(*ast.StarExpr); ok {
+			e, deref = ast.Unparen(st.X), true
+		}
+		id, ok := e.(*ast.Ident)
+		if !ok {
+			return nil, false
+		}
+		return w.info.Uses[id], deref
+	}
+	ast.Inspect(n, func(m ast.Node) bool {
+		switch x := m.(type) {
+		case *ast.IncDecStmt:
+			if id, ok := x.X.(*ast.Ident); ok {
+				if o := w.info.Uses[id]; o != nil {
+					bad[o] = true
+				}
+			}
+		case *ast.RangeStmt:
+			for _, e := range []ast.Expr{x.Key, x.Value} {
+				if id, ok := e.(*ast.Ident); ok && x.Tok == token.ASSIGN {
+					if o := w.info.Uses[id]; o != nil {
+						bad[o] = true
+					}
+				}
+			}
+		case *ast.CallExpr:
+			for _, o := range w.mayStoreThrough(x) {
+				if depth < 4 && w.calleeOnlyExtends(x, o, depth) {
+					good[o] = true
+				} else {
+					bad[o] = true
+				}
+			}
+		case *ast.AssignStmt:
+			for i, l := range x.Lhs {
+				o, deref := target(l)
+				if o == nil {
+					continue
+				}
+				ok := false
+				if x.Tok == token.ASSIGN && len(x.Lhs) == len(x.Rhs) {
+					if call, isCall := ast.Unparen(x.Rhs[i]).(*ast.CallExpr); isCall && len(call.Args) >= 2 {
+						if fid, isID := call.Fun.(*ast.Ident); isID && fid.Name == "append" {
+							if _, isBuiltin := w.info.Uses[fid].(*types.Builtin); isBuiltin {
+								if a0, d0 := target(call.Args[0]); a0 == o && d0 == deref {
+									ok = true
+								}
+							}
+						}
+					}
+				}
+				if ok {
+					good[o] = true
+				} else {
+					bad[o] = true
+				}
+			}
+		}
+		return true
+	})
+	for o := range bad {
+		delete(good, o)
+	}
+	return good
+}
+
+// calleeOnlyExtends: the module function called by x only extends (append) what the pointer it receives for the
+// caller's variable o points to.
+func (w *symWalker) calleeOnlyExtends(x *ast.CallExpr, o types.Object, depth int) bool {
+	fn, _ := calleeOf(w.info, x).(*types.Func)
+	if fn == nil {
+		return false
+	}
+	fd, pk := w.p.findDecl(fn)
+	if fd == nil || fd.Body == nil {
+		return false
+	}
+	var params []types.Object
+	if sel, ok := ast.Unparen(x.Fun).(*ast.SelectorExpr); ok && fd.Recv != nil && len(fd.Recv.List) == 1 && len(fd.Recv.List[0].Names) == 1 {
+		if id, ok := ast.Unparen(sel.X).(*ast.Ident); ok && w.info.Uses[id] == o {
+			params = append(params, pk.TypesInfo.Defs[fd.Recv.List[0].Names[0]])
+		}
+	}
+	i := 0
+	if fd.Type.Params != nil {
+		for _, f := range fd.Type.Params.List {
+			for _, nm := range f.Names {
+				if i < len(x.Args) {
+					if u, ok := ast.Unparen(x.Args[i]).(*ast.UnaryExpr); ok && u.Op == token.AND {
+						if id, ok := ast.Unparen(u.X).(*ast.Ident); ok && w.info.Uses[id] == o {
+							params = append(params, pk.TypesInfo.Defs[nm])
+						}
+					}
+				}
+				i++
+			}
+		}
+	}
+	if len(params) == 0 {
+		return false
+	}
+	sub := &symWalker{p: w.p, pk: pk, info: pk.TypesInfo, fd: fd}
+	good := sub.selfAppendsDepth(fd.Body, depth+1)
+	stores := sub.assignedThroughPointer(fd.Body)
+	for _, po := range params {
+		if po == nil {
+			return false
+		}
+		if (stores[po] || sub.assignedIn(fd.Body)[po]) && !good[po] {
+			return false // stored otherwise, re-assigned, or handed on to a callee that does more than extend
+		}
+	}
+	return true
+}
+
+// assignedThroughPointer: the identifiers p with a store `*p = ...` in n.
+func (w *symWalker) assignedThroughPointer(n ast.Node) map[types.Object]bool {
+	out := map[types.Object]bool{}
+	ast.Inspect(n, func(m ast.Node) bool {
+		if as, ok := m.(*ast.AssignStmt); ok {
+			for _, l := range as.Lhs {
+				if st, ok := ast.Unparen(l).(*ast.StarExpr); ok {
+					if id, ok := ast.Unparen(st.X).(*ast.Ident); ok {
+						if o := w.info.Uses[id]; o != nil {
+							out[o] = true
+						}
+					}
+				}
+			}
+		}
+		return true
+	})
+	return out
+}
+
+// countedLoop recognises `for i := 0; i < len(X); i++ { ... }` (also `i < n` with n = len(X), `i != len(X)`, `i += 1`)
+// whose body assigns neither i nor the collection: the same loop as `for i := range X`.
+func (w *symWalker) countedLoop(x *ast.ForStmt) (key *ast.Ident, X *Sym, ok bool) {
+	init, isAssign := x.Init.(*ast.AssignStmt)
+	if !isAssign || init.Tok != token.DEFINE || len(init.Lhs) != 1 || len(init.Rhs) != 1 || x.Cond == nil || x.Post == nil {
+		return nil, nil, false
+	}
+	id, isID := init.Lhs[0].(*ast.Ident)
+	if !isID {
+		return nil, nil, false
+	}
+	if v, isConst := constInt(w.info, init.Rhs[0]); !isConst || v != 0 {
+		return nil, nil, false
+	}
+	obj := w.info.Defs[id]
+	if obj == nil {
+		return nil, nil, false
+	}
+	isI := func(e ast.Expr) bool {
+		i, ok := ast.Unparen(e).(*ast.Ident)
+		return ok && w.info.Uses[i] == obj
+	}
+	switch post := x.Post.(type) {
+	case *ast.IncDecStmt:
+		if post.Tok != token.INC || !isI(post.X) {
+			return nil, nil, false
+		}
+	case *ast.AssignStmt:
+		if len(post.Lhs) != 1 || len(post.Rhs) != 1 || !isI(post.Lhs[0]) {
+			return nil, nil, false
+		}
+		one := false
+		if post.Tok == token.ADD_ASSIGN {
+			v, isConst := constInt(w.info, post.Rhs[0])
+			one = isConst && v == 1
+		} else if post.Tok == token.ASSIGN {
+			if be, isBin := ast.Unparen(post.Rhs[0]).(*ast.BinaryExpr); isBin && be.Op == token.ADD && isI(be.X) {
+				v, isConst := constInt(w.info, be.Y)
+				one = isConst && v == 1
+			}
+		}
+		if !one {
+			return nil, nil, false
+		}
+	default:
+		return nil, nil, false
+	}
+	be, isBin := ast.Unparen(x.Cond).(*ast.BinaryExpr)
+	if !isBin {
+		return nil, nil, false
+	}
+	var bound ast.Expr
+	switch {
+	case (be.Op == token.LSS || be.Op == token.NEQ) && isI(be.X):
+		bound = be.Y
+	case (be.Op == token.GTR || be.Op == token.NEQ) && isI(be.Y):
+		bound = be.X
+	default:
+		return nil, nil, false
+	}
+	var collection ast.Expr
+	if call, isCall := ast.Unparen(bound).(*ast.CallExpr); isCall && len(call.Args) == 1 {
+		if fid, isID := call.Fun.(*ast.Ident); isID && fid.Name == "len" {
+			if _, isBuiltin := w.info.Uses[fid].(*types.Builtin); isBuiltin {
+				collection = call.Args[0]
+			}
+		}
+	}
+	assigned := w.assignedIn(x.Body)
+	if assigned[obj] {
+		return nil, nil, false
+	}
+	if collection != nil {
+		root := ast.Unparen(collection)
+		for {
+			switch r := root.(type) {
+			case *ast.SelectorExpr:
+				root = ast.Unparen(r.X)
+				continue
+			case *ast.IndexExpr:
+				root = ast.Unparen(r.X)
+				continue
+			case *ast.StarExpr:
+				root = ast.Unparen(r.X)
+				continue
+			}
+			break
+		}
+		rid, isID := root.(*ast.Ident)
+		if !isID || assigned[w.info.Uses[rid]] {
+			return nil, nil, false
+		}
+		// stores into elements or fields of the collection's root inside the body
+		stores := false
+		ast.Inspect(x.Body, func(m ast.Node) bool {
+			if as, ok := m.(*ast.AssignStmt); ok {
+				for _, l := range as.Lhs {
+					if _, isID := l.(*ast.Ident); isID {
+						continue
+					}
+					ast.Inspect(l, func(q ast.Node) bool {
+						if qi, ok := q.(*ast.Ident); ok && w.info.Uses[qi] == w.info.Uses[rid] {
+							stores = true
+						}
+						return true
+					})
+				}
+			}
+			return true
+		})
+		if stores {
+			return nil, nil, false
+		}
+		return id, w.eval(collection), true
+	}
+	// `i < n` where n holds len(X) and is not assigned in the loop
+	if nid, isID := ast.Unparen(bound).(*ast.Ident); isID {
+		if no := w.info.Uses[nid]; no != nil && !assigned[no] {
+			if v := w.env[no]; v != nil && v.K == symLen && v.X != nil {
+				return id, v.X, true
+			}
+		}
+	}
+	return nil, nil, false
+}
+
+// loopOver walks the body of a loop over the collection X (a range statement or the counted form of one).  A list known
+// element by element is unrolled; otherwise the body is walked once with the element / index symbolic, and the lists the
+// body only ever appends to come out as prefix + each(X => what one iteration appends).
+func (w *symWalker) loopOver(x ast.Stmt, X *Sym, key, value ast.Expr, body *ast.BlockStmt, isChan bool, define bool) {
+	if X.K == symList && len(X.Parts) <= 64 && listStatic(X) {
+		frame := &loopFrame{base: len(w.conds)}
+		w.loopFrames = append(w.loopFrames, frame)
+		defer func() { w.loopFrames = w.loopFrames[:len(w.loopFrames)-1] }()
+		for i, el := range X.Parts {
+			if key != nil {
+				w.assign(key, &Sym{K: symConst, C: constant.MakeInt64(int64(i))}, x, define)
+			}
+			if value != nil {
+				w.assign(value, el, x, define)
+			}
+			w.broke = false
+			frame.left = nil
+			w.block(body.List)
+			if w.broke {
+				w.broke = false
+				break
+			}
+		}
+		return
+	}
+	savedBrokeR := w.broke
+	defer func() { w.broke = savedBrokeR }()
+	assigned := w.assignedIn(body)
+	// accumulators: lists that the body only ever extends (`acc = append(acc, ...)`, at any depth of the body)
+	type accu struct {
+		prev, marker *Sym
+	}
+	accs := map[types.Object]accu{}
+	for o := range w.selfAppends(body) {
+		if prev, ok := w.env[o]; ok && prev != nil && prev.K == symList {
+			accs[o] = accu{prev, &Sym{K: symAcc, Obj: o}}
+		}
+	}
+	// fills: `dst[key] = e` as a direct statement, dst := make([]T, len(X)), key the range key
+	type fill struct {
+		o    types.Object
+		stmt *ast.AssignStmt
+	}
+	var fills []fill
+	if keyID, ok := key.(*ast.Ident); ok && keyID.Name != "_" {
+		keyObj := w.info.Defs[keyID]
+		skippedF := false
+		for _, st := range body.List {
+			if skippedF {
+				break
+			}
+			ast.Inspect(st, func(m ast.Node) bool {
+				switch m.(type) {
+				case *ast.BranchStmt, *ast.ReturnStmt:
+					skippedF = true
+				case *ast.FuncLit:
+					return false
+				}
+				return true
+			})
+			as, ok := st.(*ast.AssignStmt)
+			if !ok || len(as.Lhs) != 1 || len(as.Rhs) != 1 || as.Tok != token.ASSIGN {
+				continue
+			}
+			ix, ok := as.Lhs[0].(*ast.IndexExpr)
+			if !ok {
+				continue
+			}
+			dst, ok1 := ast.Unparen(ix.X).(*ast.Ident)
+			kid, ok2 := ast.Unparen(ix.Index).(*ast.Ident)
+			if !ok1 || !ok2 || w.info.Uses[kid] != keyObj || keyObj == nil {
+				continue
+			}
+			o := w.info.Uses[dst]
+			prev := w.env[o]
+			if o == nil || prev == nil || prev.K != symCall || prev.Fn != "make" || len(prev.Parts) != 2 {
+				continue
+			}
+			if prev.Parts[1].K != symLen || prev.Parts[1].X.String() != X.String() {
+				continue
+			}
+			fills = append(fills, fill{o, as})
+		}
+	}
+	// folds: other variables declared before the loop and assigned in it: inside the body they stand for "the value the
+	// previous iterations left" (acc:<name>), after the loop for fold(X, initial value, what one iteration makes of it)
+	folds := map[types.Object]accu{}
+	for o := range assigned {
+		if _, isAcc := accs[o]; isAcc {
+			continue
+		}
+		if prev, ok := w.env[o]; ok && prev != nil && prev.K != symUnknown {
+			if _, isVar := o.(*types.Var); isVar {
+				folds[o] = accu{prev, &Sym{K: symAcc, Obj: o}}
+			}
+		}
+	}
+	w.forget(assigned, x) // loop-carried values are unknown inside the body as well
+	for o, a := range accs {
+		w.env[o] = &Sym{K: symList, Parts: []*Sym{a.marker}, Type: a.prev.Type}
+	}
+	for o, a := range folds {
+		w.env[o] = a.marker
+	}
+	bindLoopVars := func(t *symWalker) {
+		if key != nil {
+			if isChan {
+				t.assign(key, &Sym{K: symElem, X: X}, x, define)
+			} else {
+				t.assign(key, &Sym{K: symIdx, X: X}, x, define)
+			}
+		}
+		if value != nil {
+			t.assign(value, &Sym{K: symElem, X: X}, x, define)
+		}
+	}
+	bindLoopVars(w)
+	w.loops = append(w.loops, X)
+	w.loopFrames = append(w.loopFrames, &loopFrame{base: len(w.conds)})
+	w.block(body.List)
+	w.loopFrames = w.loopFrames[:len(w.loopFrames)-1]
+	w.loops = w.loops[:len(w.loops)-1]
+	after := map[types.Object]*Sym{}
+	for o, a := range accs {
+		v := w.env[o]
+		if os.Getenv("ACV_DBG") != "" {
+			fmt.Fprintf(os.Stderr, "DBG acc %s after body: %s\n", o.Name(), v.String())
+		}
+		if v == nil || v.K != symList || len(v.Parts) == 0 || v.Parts[0] != a.marker {
+			continue
+		}
+		out := &Sym{K: symList, Type: a.prev.Type}
+		out.Parts = append(out.Parts, a.prev.Parts...)
+		if len(v.Parts) > 1 {
+			out.Parts = append(out.Parts, &Sym{K: symRepeat, X: X, Parts: v.Parts[1:]})
+		}
+		after[o] = out
+	}
+	for o, a := range folds {
+		v := w.env[o]
+		if v == nil || v.HasUnknown() {
+			continue
+		}
+		if v == a.marker {
+			after[o] = a.prev // never assigned on the path walked
+			continue
+		}
+		after[o] = &Sym{K: symCall, Fn: "fold", X: X, Parts: []*Sym{a.prev, v}}
+	}
+	w.forget(assigned, x)
+	for o, v := range after {
+		w.env[o] = v
+	}
+	for _, f := range fills {
+		// evaluate the stored value once more in the loop's binding (no events: callbacks muted)
+		sub := &symWalker{p: w.p, pk: w.pk, info: w.info, fd: w.fd, env: copyEnv(w.env), stack: w.stack, depth: w.depth, Inline: nil}
+		bindLoopVars(sub)
+		v := sub.eval(f.stmt.Rhs[0])
+		w.env[f.o] = &Sym{K: symList, Parts: []*Sym{{K: symRepeat, X: X, Parts: []*Sym{v}}}}
+	}
+}
+
+// mergeLists: after `if c {A} else {B}`, a list that both branches only extended is the common prefix followed by
+// when(c => what A appended) and when(!c => what B appended).
+func mergeLists(pre, a, b, cond *Sym) *Sym {
+	if pre == nil || pre.K != symList || a.K != symList || b.K != symList {
+		return nil
+	}
+	n := len(pre.Parts)
+	if len(a.Parts) < n || len(b.Parts) < n {
+		return nil
+	}
+	for i := 0; i < n; i++ {
+		if a.Parts[i] != pre.Parts[i] || b.Parts[i] != pre.Parts[i] {
+			return nil
+		}
+	}
+	out := &Sym{K: symList, Type: pre.Type}
+	out.Parts = append(out.Parts, pre.Parts...)
+	if len(a.Parts) > n {
+		out.Parts = append(out.Parts, &Sym{K: symWhen, X: cond, Name: cond.String(), Parts: a.Parts[n:]})
+	}
+	if len(b.Parts) > n {
+		out.Parts = append(out.Parts, &Sym{K: symWhen, X: &Sym{K: symNot, X: cond}, Name: "!" + cond.String(), Parts: b.Parts[n:]})
+	}
+	return out
+}
+
+// ResolveEmptiness replaces every if/else choice whose condition is an emptiness test of the collection coll (len(coll)
+// compared with 0 or 1) by the alternative taken when coll is empty / non-empty; other parts are kept.
+func (s *Sym) ResolveEmptiness(coll string, empty bool) *Sym {
+	if s == nil {
+		return nil
+	}
+	if s.K == symChoice && len(s.AltConds) == len(s.Parts) {
+		for i, c := range s.AltConds {
+			if x, ok, isEmpty := (symCond{Cond: c}).Emptiness(); ok && x != nil && x.String() == coll && isEmpty == empty {
+				return s.Parts[i].ResolveEmptiness(coll, empty)
+			}
+		}
+	}
+	cp := *s
+	if len(s.Parts) > 0 {
+		cp.Parts = make([]*Sym, len(s.Parts))
+		for i, p := range s.Parts {
+			cp.Parts[i] = p.ResolveEmptiness(coll, empty)
+		}
+	}
+	if s.X != nil {
+		cp.X = s.X.ResolveEmptiness(coll, empty)
+	}
+	if s.Y != nil {
+		cp.Y = s.Y.ResolveEmptiness(coll, empty)
+	}
+	if len(s.Fields) > 0 {
+		cp.Fields = map[string]*Sym{}
+		for k, v := range s.Fields {
+			cp.Fields[k] = v.ResolveEmptiness(coll, empty)
+		}
+	}
+	return &cp
 }
